@@ -189,7 +189,7 @@ func work(id string, p Prop, args []string) int {
 	progress := fs.String("progress", "", "file that receives RUN <seed> lines (race workers)")
 	maxViol := fs.Int("maxviol", 1, "a violation may taint process-wide state: stop at the first one")
 	fs.Parse(args)
-	pl := &Plan{Name: *planName, Variant: *variant, Race: *race, Size: *size}
+	pl := &Plan{Name: *planName, Variant: *variant, Race: *race, Size: *size, Cold: strings.HasSuffix(*planName, "-cold")}
 	t0 := time.Now()
 	o := &WorkerOut{Worker: *worker, Plan: *planName, Race: *race, Discards: map[string]int{}, Known: map[string]int{}, Probes: map[string]int64{}, Faults: map[string]int64{}}
 	var pf *os.File
@@ -395,7 +395,7 @@ func emit(id string, p Prop, args []string) int {
 	out := fs.String("out", "", "")
 	norun := fs.Bool("norun", false, "print the generated case without executing it")
 	fs.Parse(args)
-	pl := &Plan{Name: *planName, Variant: *variant, Size: *size}
+	pl := &Plan{Name: *planName, Variant: *variant, Size: *size, Cold: strings.HasSuffix(*planName, "-cold")}
 	c := p.Gen(NewRand(*rs), pl)
 	if !*norun {
 		p.Run(c) // fills in the explicit schedule
